@@ -547,3 +547,174 @@ Proof.
       - apply yields_many0. apply (bar_list_rt (NT nt_nmtoken) nmtoken_ok); [intros x [_ H]; exact H|intros; apply parses_nmtoken; assumption|exact Hl']. }
     eapply parses_seq; [apply parses_chars0_nil; exact eq_refl|tag].
 Qed.
+
+Lemma body_default_decl : body G_xml nt_default_decl =
+  Alt (Map L_closure_813e2abc (Tag [35;82;69;81;85;73;82;69;68])) (Alt (Map L_closure_9e9af08f (Tag [35;73;77;80;76;73;69;68]))
+      (Map L_closure_891fe81b (Seq (Opt (SeqL (Tag [35;70;73;88;69;68]) (Chars1 ws))) (NT nt_att_value)))).
+Proof. reflexivity. Qed.
+Lemma body_att_def : body G_xml nt_att_def =
+  Map L_model_DeclarationAttDef_from
+    (Seq (SeqR (Chars1 ws) (Alt (Map L_model_DeclarationAttName_Attr (NT nt_qname)) (Map L_model_DeclarationAttName_Namsspace (NT nt_ns_att_name))))
+         (Seq (SeqR (Chars1 ws) (NT nt_att_type)) (SeqR (Chars1 ws) (NT nt_default_decl)))).
+Proof. reflexivity. Qed.
+Lemma body_attlist_decl : body G_xml nt_attlist_decl =
+  Map L_model_DeclarationAtt_from (SeqR (Seq (Tag [60;33;65;84;84;76;73;83;84]) (Chars1 ws))
+    (SeqL (Seq (NT nt_qname) (Many0 (NT nt_att_def))) (Seq (Chars0 ws) (Tag [62])))).
+Proof. reflexivity. Qed.
+
+Definition s_fixed_tag : str := [35;70;73;88;69;68].
+
+Section AttList.
+Variable acc : list entity.
+Variable ext : bool.
+
+Definition adefault_wf (d : adefault) : Prop :=
+  match d with
+  | XdValue f vs => (f = None \/ f = Some s_fixed_tag) /\ values_wf acc ext vs
+  | _ => True
+  end.
+
+Definition un_adefault (d : adefault) : att_default :=
+  match d with
+  | XdRequired => AdRequired
+  | XdImplied => AdImplied
+  | XdValue f vs => AdValue f (map un_avalue vs)
+  end.
+
+Lemma al_default_value f (l : list att_value) :
+  apply_label L_closure_891fe81b (VPair (match f with Some x => VSome (VStr x) | None => VNone end) (VList (map VAttValue l)))
+  = VAttDefault (AdValue f l).
+Proof.
+  change (apply_label L_closure_891fe81b (VPair (match f with Some x => VSome (VStr x) | None => VNone end) (VList (map VAttValue l))))
+    with (match as_opt as_str (match f with Some x => VSome (VStr x) | None => VNone end), as_list as_attvalue (VList (map VAttValue l)) with
+          | Some f', Some a' => VAttDefault (AdValue f' a') | _, _ => VBad end).
+  rewrite as_list_map by reflexivity. destruct f; reflexivity.
+Qed.
+
+(** [t]: what follows an attribute definition: the next one (a space) or the end of the declaration *)
+Definition def_tail (t : str) : Prop := (exists u, t = 32 :: u) \/ (exists u, t = 62 :: u).
+
+Theorem default_decl_rt (d : adefault) (t : str) : adefault_wf d ->
+  yields (NT nt_default_decl) (d_adefault d ++ t) (VAttDefault (un_adefault d)) t
+  /\ match d with XdValue f vs => build_avalues acc ext (map un_avalue vs) = IOk vs | _ => True end.
+Proof.
+  intros Hw. destruct d as [| |f vs]; cbn [d_adefault un_adefault adefault_wf] in *.
+  - split; [|exact I]. apply yields_nt. rewrite body_default_decl. apply yields_alt_l.
+    apply (yields_map' (VStr s_required)); [reflexivity|]. apply yields_str. apply parses_tag.
+  - split; [|exact I]. apply yields_nt. rewrite body_default_decl.
+    apply yields_alt_r; [apply fails_map; apply fails_tag; reflexivity|]. apply yields_alt_l.
+    apply (yields_map' (VStr s_implied)); [reflexivity|]. apply yields_str. apply parses_tag.
+  - destruct Hw as [Hf Hv]. destruct (att_value_rt acc ext vs t Hv) as [Hy Hb]. split; [|exact Hb].
+    destruct Hv as [Hadj Hall]. rewrite (quote_att_value_escape acc ext vs Hall) in Hy.
+    destruct (escape_head_quote (d_avalues vs)) as [q [u [Eq Hq]]].
+    assert (q = 34 \/ q = 39) as Hq2.
+    { unfold escape in Eq. destruct (existsb (N.eqb 34) (d_avalues vs)); injection Eq as <- _; auto. }
+    apply yields_nt. rewrite body_default_decl.
+    destruct Hf as [-> | ->].
+    + cbn [app]. rewrite Eq in *.
+      apply yields_alt_r; [apply fails_map; apply fails_tag; destruct Hq2 as [-> | ->]; reflexivity|].
+      apply yields_alt_r; [apply fails_map; apply fails_tag; destruct Hq2 as [-> | ->]; reflexivity|].
+      eapply yields_map'; [apply (al_default_value None)|].
+      eapply yields_seq; [|exact Hy]. apply yields_opt_none. apply fails_seql_l. apply fails_tag.
+      destruct Hq2 as [-> | ->]; reflexivity.
+    + unfold s_fixed. norm_app.
+      apply yields_alt_r; [apply fails_map; apply fails_tag; reflexivity|].
+      apply yields_alt_r; [apply fails_map; apply fails_tag; reflexivity|].
+      eapply yields_map'; [apply (al_default_value (Some s_fixed_tag))|].
+      eapply yields_seq; [|exact Hy]. apply yields_opt_some. apply yields_str.
+      eapply parses_seql; [tag|]. apply (parses_chars1 G_xml ws [32]); [discriminate|reflexivity|]. rewrite Eq. exact Hq.
+Qed.
+
+Definition attdef_wf (d : attdef) : Prop :=
+  qname_ok (mk_qname (xd_prefix d) (xd_local d)) /\ att_type_wf (xd_ty d) /\ adefault_wf (xd_value d).
+
+Definition un_attdef (d : attdef) : att_def :=
+  AttDef (DanAttr (mk_qname (xd_prefix d) (xd_local d))) (xd_ty d) (un_adefault (xd_value d)).
+
+Lemma d_adefault_head (d : adefault) : adefault_wf d -> exists c u, d_adefault d = c :: u /\ eval ws c = false.
+Proof.
+  destruct d as [| |f vs]; cbn [d_adefault]; intros Hw.
+  - eexists. eexists. split; reflexivity.
+  - eexists. eexists. split; reflexivity.
+  - destruct f; [eexists; eexists; split; reflexivity|]. cbn [app]. apply escape_head_quote.
+Qed.
+
+Lemma d_att_type_head (t : att_type) : exists c u, d_att_type t = c :: u /\ eval ws c = false.
+Proof. destruct t; cbn [d_att_type]; eexists; eexists; split; reflexivity. Qed.
+
+Theorem att_def_rt (d : attdef) (t : str) : attdef_wf d -> def_tail t ->
+  yields (NT nt_att_def) (32 :: d_attdef d ++ t) (VAttDef (un_attdef d)) t
+  /\ build_attdef acc ext (un_attdef d) = IOk d.
+Proof.
+  intros [Hq [Ht Hd]] Htail. destruct (default_decl_rt (xd_value d) t Hd) as [Hyd Hbd]. split.
+  - apply yields_nt. rewrite body_att_def. apply (yields_map' (VPair (VDeclAttName (DanAttr (mk_qname (xd_prefix d) (xd_local d))))
+                                                  (VPair (VAttType (xd_ty d)) (VAttDefault (un_adefault (xd_value d)))))); [reflexivity|].
+    unfold d_attdef. rewrite d_name_qname. norm_app.
+    destruct (qname_head _ Hq) as [c [u [Ec Hc]]].
+    eapply yields_seq.
+    + eapply yields_seqr; [apply (parses_chars1 G_xml ws [32]); [discriminate|reflexivity|]; rewrite Ec; cbn [app stops]; apply name_start_not_ws; exact Hc|].
+      apply yields_alt_l. apply (yields_map' (VQName (mk_qname (xd_prefix d) (xd_local d)))); [reflexivity|].
+      exists (tree_qname (mk_qname (xd_prefix d) (xd_local d))). split; [|apply eval_tree_qname].
+      apply parses_qname; [exact Hq|exact eq_refl].
+    + destruct (d_att_type_head (xd_ty d)) as [c1 [u1 [E1 H1]]]. destruct (d_adefault_head _ Hd) as [c2 [u2 [E2 H2]]].
+      eapply yields_seq.
+      * eapply yields_seqr; [apply (parses_chars1 G_xml ws [32]); [discriminate|reflexivity|rewrite E1; exact H1]|].
+        apply att_type_rt. exact Ht.
+      * eapply yields_seqr; [apply (parses_chars1 G_xml ws [32]); [discriminate|reflexivity|rewrite E2; exact H2]|]. exact Hyd.
+  - unfold build_attdef, un_attdef. cbn [ad_name ad_ty ad_value]. rewrite qname_parts_mk.
+    destruct d as [local prefix ty dv]. cbn [xd_local xd_prefix xd_ty xd_value] in *.
+    destruct dv as [| |f vs]; cbn [un_adefault ibind]; try reflexivity. rewrite Hbd. reflexivity.
+Qed.
+
+Definition attlist_wf (a : attlist) : Prop :=
+  qname_ok (mk_qname (al_prefix a) (al_local a)) /\ Forall attdef_wf (al_atts a).
+
+Definition un_attlist (a : attlist) : decl_att :=
+  DeclAtt (mk_qname (al_prefix a) (al_local a)) (map un_attdef (al_atts a)).
+
+Definition d_attdefs (l : list attdef) : str := flat_map (fun d => 32 :: d_attdef d) l.
+
+Lemma attdefs_many (r : str) : forall l, Forall attdef_wf l ->
+  many_yields (NT nt_att_def) (d_attdefs l ++ 62 :: r) (map VAttDef (map un_attdef l)) (62 :: r)
+  /\ build_attdefs acc ext (map un_attdef l) = IOk l.
+Proof.
+  induction 1 as [|d l Hd _ [IHy IHb]]; cbn [d_attdefs flat_map map].
+  - split; [|reflexivity]. apply my_stop. apply fails_nt. rewrite body_att_def. apply fails_map. apply fails_seq_l.
+    apply fails_seqr_l. apply fails_chars1. exact eq_refl.
+  - fold (d_attdefs l). norm_app.
+    assert (def_tail (d_attdefs l ++ 62 :: r)) as Htail.
+    { destruct l; cbn [d_attdefs flat_map app]; [right|left]; eexists; reflexivity. }
+    destruct (att_def_rt d _ Hd Htail) as [Hy Hb]. split.
+    + eapply my_step; [exact Hy| |exact IHy]. cbn [length]. rewrite (app_length (d_attdef d)). unfold str, char in *. lia.
+    + cbn [build_attdefs]. rewrite Hb. cbn [ibind]. rewrite IHb. reflexivity.
+Qed.
+
+Lemma al_decl_att n (l : list att_def) :
+  apply_label L_model_DeclarationAtt_from (VPair (VQName n) (VList (map VAttDef l))) = VDeclAtt (DeclAtt n l).
+Proof.
+  change (apply_label L_model_DeclarationAtt_from (VPair (VQName n) (VList (map VAttDef l))))
+    with (ret (fun d' => VDeclAtt (DeclAtt n d')) (as_list as_att_def (VList (map VAttDef l)))).
+  rewrite as_list_map by reflexivity. reflexivity.
+Qed.
+
+Theorem attlist_decl_rt (a : attlist) (r : str) : attlist_wf a ->
+  yields (NT nt_attlist_decl) (d_attlist false a ++ r) (VDeclAtt (un_attlist a)) r
+  /\ build_attlist acc ext (un_attlist a) = IOk a.
+Proof.
+  intros [Hq Hl]. destruct (attdefs_many r (al_atts a) Hl) as [Hm Hb]. split.
+  - apply yields_nt. rewrite body_attlist_decl. eapply yields_map'; [apply al_decl_att|].
+    unfold d_attlist, s_attlist_open. rewrite d_name_qname. fold (d_attdefs (al_atts a)). norm_app.
+    destruct (qname_head _ Hq) as [c [u [Ec Hc]]].
+    eapply yields_seqr.
+    { eapply parses_seq; [tag|]. apply (parses_chars1 G_xml ws [32]); [discriminate|reflexivity|].
+      rewrite Ec. cbn [app stops]. apply name_start_not_ws. exact Hc. }
+    eapply yields_seql.
+    { eapply yields_seq.
+      - exists (tree_qname (mk_qname (al_prefix a) (al_local a))). split; [|apply eval_tree_qname].
+        apply parses_qname; [exact Hq|]. destruct (al_atts a); cbn [d_attdefs flat_map app]; exact eq_refl.
+      - apply yields_many0. exact Hm. }
+    eapply parses_seq; [apply parses_chars0_nil; exact eq_refl|tag].
+  - unfold build_attlist, un_attlist. cbn [da_defs da_name]. rewrite Hb. cbn [ibind]. rewrite qname_parts_mk. destruct a; reflexivity.
+Qed.
+
+End AttList.
